@@ -70,6 +70,31 @@ def b(self, p, q):
     if not p or not q:
         raise ValueError()
 """),
+    ("table-driven dispatch", """
+def a(self, x):
+    if isinstance(x, dict):
+        return A(x)
+    if isinstance(x, list):
+        return B(x)
+    raise TypeError()
+def b(self, x):
+    for t, w in ((dict, A), (list, B)):
+        if isinstance(x, t):
+            return w(x)
+    raise TypeError()
+"""),
+    ("table-driven checks", """
+REQUIRED = (('channels', 'no channels'), ('frames', 'no frames'))
+def a(self):
+    if not self.channels:
+        raise RuntimeError('no channels')
+    if not self.frames:
+        raise RuntimeError('no frames')
+def b(self):
+    for name, msg in REQUIRED:
+        if not getattr(self, name):
+            raise RuntimeError(msg)
+"""),
     ("comparison orientation", """
 def a(self, n):
     if 3 < n:
@@ -127,6 +152,23 @@ class C:
     def b(self, x):
         self._check(x)
         self.v = self._double(x)
+"""),
+    ("helper result bound to a local and used in a loop", """
+class C:
+    def a(self, n):
+        if n < 1:
+            raise ValueError()
+        out = Buf(n)
+        for x in self.items:
+            out.add(x)
+    def _mk(self, n):
+        if n < 1:
+            raise ValueError()
+        return Buf(n)
+    def b(self, n):
+        out = self._mk(n)
+        for x in self.items:
+            out.add(x)
 """),
     ("generator helper fused", """
 class C:
